@@ -382,32 +382,41 @@ where
     type Item = EphemeralMessage<M>;
 
     fn poll_next(mut self: Pin<&mut Self>, cx: &mut Context<'_>) -> Poll<Option<Self::Item>> {
-        // Verification hook: one event per poll of the inner gossip subscription.
-        #[cfg(p2panda_p2panda_verif)]
-        p2panda_core::verif::emit("ephemeral.sub.inner_poll");
+        // Skip over items we don't hand to the user and poll the inner stream again. Returning
+        // `Poll::Pending` here instead would stall the subscription: the inner stream only
+        // registers the waker when it is pending itself, so nothing would ever wake the task up
+        // again, even when further (valid) messages are already waiting in the channel.
+        loop {
+            // Verification hook: one event per poll of the inner gossip subscription.
+            #[cfg(p2panda_p2panda_verif)]
+            p2panda_core::verif::emit("ephemeral.sub.inner_poll");
 
-        match ready!(self.inner.poll_next_unpin(cx)) {
-            // Check encoding & supported version and signature during deserialisation.
-            Some(Ok(bytes)) => match WrappedMessage::from_bytes(&bytes) {
-                Ok(wrapped) => Poll::Ready(Some(EphemeralMessage {
-                    topic: self.topic,
-                    inner: wrapped,
-                })),
-                Err(err) => {
-                    // Don't bother users with invalid wrapped messages as this type is not public.
-                    // Instead we log a warning, in case this reveals a buggy implementation, etc.
-                    warn!("invalid ephemeral message received: {err}");
-                    Poll::Pending
-                }
-            },
-            // Ignore internal broadcast channel error, this only indicates that the channel
-            // dropped a message which we can't do much about on this layer anymore. In the future
-            // we want to remove this error type altogether.
-            //
-            // Related issue: https://github.com/p2panda/p2panda/issues/959
-            Some(Err(_)) => Poll::Pending,
-            // Internal stream seized.
-            None => Poll::Ready(None),
+            match ready!(self.inner.poll_next_unpin(cx)) {
+                // Check encoding & supported version and signature during deserialisation.
+                Some(Ok(bytes)) => match WrappedMessage::from_bytes(&bytes) {
+                    Ok(wrapped) => {
+                        return Poll::Ready(Some(EphemeralMessage {
+                            topic: self.topic,
+                            inner: wrapped,
+                        }));
+                    }
+                    Err(err) => {
+                        // Don't bother users with invalid wrapped messages as this type is not
+                        // public. Instead we log a warning, in case this reveals a buggy
+                        // implementation, etc.
+                        warn!("invalid ephemeral message received: {err}");
+                        continue;
+                    }
+                },
+                // Ignore internal broadcast channel error, this only indicates that the channel
+                // dropped a message which we can't do much about on this layer anymore. In the
+                // future we want to remove this error type altogether.
+                //
+                // Related issue: https://github.com/p2panda/p2panda/issues/959
+                Some(Err(_)) => continue,
+                // Internal stream seized.
+                None => return Poll::Ready(None),
+            }
         }
     }
 }
